@@ -448,6 +448,7 @@ func main() {
 	}
 	e2ePhase(r)
 	managerPhase(r)
+	generatedProxyPhase(r)
 	run.Finish()
 }
 
